@@ -64,7 +64,10 @@ def extElems : List (Nat × Nat × Nat × Nat) :=
    (9999, 5, 5, 11), (9999, 6, 6, 8), (9999, 7, 7, 12), (31337, 100, 100, 1),
    -- signed8 / signed16 / signed32 / float32: no IANA element of the built-in table has these types, so the
    -- decoders reach those arms of `Interpret` (and its sign extension of over-long fields, F24) only through these
-   (9999, 8, 8, 5), (9999, 9, 9, 6), (9999, 10, 10, 7), (9999, 11, 11, 9)]
+   (9999, 8, 8, 5), (9999, 9, 9, 6), (9999, 10, 10, 7), (9999, 11, 11, 9),
+   -- IANA-space (enterprise 0) elements that only an installed `ipfix.elements` defines: NetFlow v9 has no enterprise
+   -- numbers, so this is the only way an extension reaches its decoder — it must see the loaded model, not a copy
+   (0, 500, 500, 3), (0, 501, 501, 14), (0, 502, 502, 5)]
 
 /-- the FieldType index a type name resolves to through the generated `FieldTypes` map; a missing
 name gives 0 (`Unknown`), as the Go map lookup does on both load paths -/
